@@ -95,3 +95,15 @@ package ast
 //@   ensures (self != nil && old(self.size) == 0) ==> self.size == 0
 //@   ensures self != nil ==> (forall j int :: (0 <= j && j < self.size) ==> same(lnAt(self, j), old(lnAt(self, j))))
 //@   ensures self != nil ==> lnWF(self)
+
+// ToSlice: con[j] receives element j of the sequence, for every j below size (C14: Array/Interface views).
+//@ func (*linkedNodes).ToSlice props C14,C15
+//@   requires lnWF(self) && self.size <= 70368744177664
+//@   modifies con[_]
+//@   ensures len(con) >= self.size ==> (forall j int :: (0 <= j && j < self.size) ==> same(con[j], lnAt(self, j)))
+//@   loop 0: invariant 0 <= i && i <= a && a == (self.size - 1) / 16 - 1 && b == (self.size - 1) % 16 && a >= 0 && self.size >= 1
+//@   loop 0: invariant base(con) == base(con0) && off(con) == off(con0) + 16 * (i + 1) && len(con) == len(con0) - 16 * (i + 1) && len(con0) >= self.size
+//@   loop 0: invariant forall j int :: (0 <= j && j < 16 * (i + 1)) ==> same(con0[j], lnAt(self, j))
+//@   loop 0: invariant lnWF(self) && self.size == old(self.size)
+//@   loop 0: modifies con0[_]
+//@   loop 0: decreases a - i
